@@ -57,6 +57,15 @@ PROPS = {
         runs=lambda t: [catalogue(t, "meta,enc,dec", values=(12, 100), nbytes=(40, 400), exhaustive=(1, 1))],
         corr=["corr.meta", "corr.bytes_len", "corr.enc", "corr.has_ty", "corr.dec.class", "corr.const"],
         oracle=["oracle.C07"]),
+    "C08": dict(
+        runs=lambda t: [catalogue(t, "meta,enc,dec,app", values=(12, 80), nbytes=(100, 1000), exhaustive=(1, 1), tag="derive"),
+                        dict(args=["--ops", "derive"], shards=1)],
+        corr=CORR_ENC + CORR_DEC + ["corr.meta", "corr.bytes_len", "corr.append", "corr.as_bytes", "corr.derive", "corr.derive.reject"],
+        oracle=["oracle.C08", "oracle.C01", "oracle.C02", "oracle.C03", "oracle.C04", "oracle.C07", "oracle.C10", "oracle.C15"],
+        cfsuite=True,
+        rule="machine-written #[derive(Encode, Decode)] programs (containers with 0-8 fields, skipped fields in every position, "
+             "#[ssz(with)] fields, transparent structs, unions of 1..128 variants, tag and transparent enums, generic structs) compiled "
+             "with the real macro; every observation of the generic harness on them; plus one tiny crate per rejected-definition class"),
     "C09": dict(
         runs=lambda t: [special(t, "word,helpers,builder,listvar", count=(8000, 200000))],
         corr=["corr.encode_length", "corr.read_offset", "corr.builder", "corr.listvar", "corr.const"],
